@@ -51,4 +51,6 @@ def now_obligations(tier):
 
 
 def run(tier, seed, t0, only=None):
+    from .. import gen
+    gen.build_tools()           # the native replayer must be built from the current tree before any obligation may replay on it
     return D.run('C12', groups(tier), tier, seed, t0, extra_obs=now_obligations(tier))
